@@ -255,6 +255,9 @@ DOMNode* DOMAttrImpl::rename(const XMLCh* namespaceURI, const XMLCh* name)
     DOMElement* el = getOwnerElement();
     DOMDocumentImpl* doc = (DOMDocumentImpl*)fParent.fOwnerDocument;
 
+    if (!name || !doc->isXMLName(name))
+        throw DOMException(DOMException::INVALID_CHARACTER_ERR, 0, GetDOMNodeMemoryManager);
+
     if (el)
         el->removeAttributeNode(this);
 
